@@ -119,7 +119,7 @@ func runC16(input string) string {
 // ---------------------------------------------------------------- child side
 
 func c16ChildMain() {
-	debug.SetMaxStack(16 << 20)
+	debug.SetMaxStack(4 << 20)
 	in := bufio.NewReaderSize(os.Stdin, 1<<16)
 	out := bufio.NewWriter(os.Stdout)
 	for {
